@@ -81,10 +81,11 @@ def _seq(group, position):
 
 
 NEUTRAL = [False]  # --neutraln --neutralc (PARSE only) for the duration of one obligation
+OPT = [True]  # hydrogen-bond optimisation on (default) / --noopt, per path of the titration harness
 
 
 def _args(ff, ffout, ph, keep_chain=True):
-    a = fixtures.Args(ff=ff, ffout=ffout, ph=ph, pka_method="propka", debump=True, opt=True, keep_chain=keep_chain, neutraln=NEUTRAL[0], neutralc=NEUTRAL[0])
+    a = fixtures.Args(ff=ff, ffout=ffout, ph=ph, pka_method="propka", debump=True, opt=OPT[0], keep_chain=keep_chain, neutraln=NEUTRAL[0], neutralc=NEUTRAL[0])
     return a
 
 
@@ -134,7 +135,7 @@ def _reference(ff, seq, idx, patch, ffout=None):
     """Concrete run with the state forced by applying *patch* to residue idx
     (None = default state): is the state parameterisable, and what does the
     residue look like?  Uses the real pipeline, no pKa logic."""
-    key = (ff, tuple(seq), idx, patch, ffout, NEUTRAL[0])
+    key = (ff, tuple(seq), idx, patch, ffout, NEUTRAL[0], OPT[0])
     if key in _REF_CACHE:
         return _REF_CACHE[key]
     from pdb2pqr import main
@@ -158,10 +159,13 @@ def _reference(ff, seq, idx, patch, ffout=None):
 
 def h_titration(eng, ff, ffout, group, position, keep_chain=True, start=1, neutral=False):
     NEUTRAL[0] = bool(neutral)
+    # --noopt is a model option like any other: titration states follow pKa vs pH with and without the optimisation pass
+    OPT[0] = bool(eng.flag("opt")) if group in ("ASP", "GLU", "HIS") and position == "internal" else True
     try:
         return _h_titration(eng, ff, ffout, group, position, keep_chain, start)
     finally:
         NEUTRAL[0] = False
+        OPT[0] = True
 
 
 def _h_titration(eng, ff, ffout, group, position, keep_chain=True, start=1):
